@@ -1030,7 +1030,8 @@ impl<'t, 'b> G<'t, 'b> {
                 Some(Stmt::Print { id: self.id(), values })
             }
             8 => {
-                let value = if self.t.chance(1, 2) {
+                // scans nested in loops or scans get short literal subjects (run time multiplies)
+                let value = if self.loop_depth > 0 || self.t.chance(1, 2) {
                     Expr::Str(SCAN_SUBJECTS[self.t.choose(SCAN_SUBJECTS.len())].to_string())
                 } else {
                     self.expr(&Ty::Str, true, depth + 1)
